@@ -2,6 +2,7 @@ import FcpptProofs.C03.Parse
 import FcpptProofs.C03.NextArg
 import FcpptProofs.C03.Construct
 import FcpptProofs.C03.Term
+import FcpptProofs.C03.Help
 /-!
 # C03 — property theorems (see notes/C03.md for the clause-by-clause coverage)
 
@@ -215,6 +216,15 @@ theorem argument_takes_next_arg {f : Nat} {l : String} {ty : VTy} {st : List Arg
       obtain ⟨rfl, rfl, rfl⟩ := h
       exact ⟨x, y, z, rfl, rfl, rfl, by simpa using hv⟩
     · cases h
+
+/-! ## the help wrapper -/
+
+/-- `parse_help` with a long-name-only help switch (`default_help_switch`) answers with the help text **iff** the
+argument vector is exactly `[--<long>]`: the switch "and nothing else" (with anything else the sum's left branch
+leaves a leftover, which `parse_to_empty` reports as an error) -/
+theorem help_only_alone (f : Nat) (hlg : String) (p : OP) (args : List String) :
+    (∃ x, parseHelp (f + 2) none hlg p args = .ok x ∧ (match x with | .help => True | .result .. => False)) ↔
+      args = [flagName hlg false] := parseHelp_help_iff f hlg p args
 
 /-! ## definitions -/
 
